@@ -833,7 +833,7 @@ Proof.
   rewrite Hchk, Hchk1, Hchk2. cbn [app].
   destruct (Hok x0 (or_introl eq_refl)) as [_ Ht]. rewrite Ht. split.
   - intros id [H|[]]. discriminate.
-  - unfold elementary. cbn [flat_map elems_of_call]. rewrite app_nil_r, map_map, fm_single.
+  - rewrite fm_single. unfold elementary. cbn [flat_map elems_of_call]. rewrite app_nil_r, map_map.
     apply map_ext_in. intros x Hx. unfold em2l. cbn [fst snd].
     rewrite (Hu x x0 Hx (or_introl eq_refl)). reflexivity.
 Qed.
@@ -890,3 +890,341 @@ Proof.
   - rewrite elementary_fm. rewrite (fm_ext_in _ _ _ (fun run Hr => proj2 (Hrun run Hr))).
     apply runs_flat.
 Qed.
+
+Lemma records_nil cells (f0 : Z -> list (Z * Z)) : (forall t, f0 t = []) -> records_of cells f0 = [].
+Proof. intros H. unfold records_of. apply fm_nil_all. intros kc _. rewrite H. reflexivity. Qed.
+
+Lemma recs_rec_ok (f0 : Z -> list (Z * Z)) g x : cgroup_ok g -> StronglySorted Z.lt (cg_cells g) ->
+  In x (records_of (cg_cells g) f0) -> rec_ok g x.
+Proof.
+  intros Hg Hsg Hx. apply records_In in Hx. destruct Hx as (Hpos & Hz & _). split; [|apply Hz].
+  apply (gfind1_some cgroup cg_cells cg_first cg_last cg_n g (x_tgt x) (x_tpos x) Hg Hsg).
+  split; [exact Hpos|apply Hz].
+Qed.
+
+Definition m2l_group_calls (d : nat) (per : bool) (l : Z) (groups : list cgroup) (g : cgroup) : list call :=
+  let '(internal, external) := ilist_block d per l true g in
+  flat_map (fun gv => m2l_between d l g (fst gv) (snd gv)) (map_indexes_and_blocks cg_first cg_last external groups)
+  ++ m2l_in_group d l g internal.
+
+Definition m2l_level (d : nat) (per : bool) (l : Z) (groups : list cgroup) : list call :=
+  flat_map (fun g =>
+    let '(internal, external) := ilist_block d per l true g in
+    flat_map (fun gv => m2l_between d l g (fst gv) (snd gv)) (map_indexes_and_blocks cg_first cg_last external groups)
+    ++ m2l_in_group d l g internal) groups.
+
+Lemma m2l_level_groups d per l groups : m2l_level d per l groups = flat_map (m2l_group_calls d per l groups) groups.
+Proof. reflexivity. Qed.
+
+Section M2LLevel.
+Variables (d : nat) (per : bool) (l : Z) (groups : list cgroup).
+Hypothesis Hlev : level_ok groups.
+Hypothesis Hlen : forall t, In t (level_cells groups) -> zlen (ilist_cell d per l t) <= nb_interactions d.
+
+Notation f := (ilist_cell d per l).
+Notation cpin := (pin cgroup cg_cells cg_first cg_last cg_n).
+Notation cpout := (pout cgroup cg_first cg_last).
+Notation crecs := (recs cgroup cg_cells f).
+
+Lemma c_ok : Forall (gok cgroup cg_cells cg_first cg_last cg_n) groups.
+Proof. exact (proj1 Hlev). Qed.
+Lemma c_sorted : StronglySorted Z.lt (lev cgroup cg_cells groups).
+Proof. exact (proj2 Hlev). Qed.
+
+Lemma ilist_block_eq g : ilist_block d per l true g = (filter (cpin g) (crecs g), filter (cpout g) (crecs g)).
+Proof.
+  unfold ilist_block. destruct (ilist_active per l) eqn:E; cbn [negb].
+  - rewrite classify_filter. reflexivity.
+  - unfold recs. rewrite records_nil; [reflexivity|]. intros t. unfold ilist_cell. rewrite E. reflexivity.
+Qed.
+
+Lemma m2l_group g : In g groups ->
+  no_assert (m2l_group_calls d per l groups g) /\
+  elementary (m2l_group_calls d per l groups g)
+  = group_out cgroup cg_cells cg_first cg_last cg_n elem f (EM2L l) groups g.
+Proof.
+  intros Hg. unfold m2l_group_calls. rewrite ilist_block_eq.
+  pose proof (g_ok cgroup cg_cells cg_first cg_last cg_n groups c_ok g Hg) as Hgo.
+  pose proof (g_sorted cgroup cg_cells cg_first cg_last cg_n groups c_ok c_sorted g Hg) as Hgs.
+  assert (Hrec : forall x, In x (crecs g) -> rec_ok g x).
+  { intros x Hx. apply (recs_rec_ok f g x Hgo Hgs Hx). }
+  assert (Hcnt : forall v, (forall t, (length (filter (fun x => (x_tgt x =? t)%Z) v) <= length (f t))%nat) ->
+            incl v (crecs g) -> forall x, In x v -> zlen (filter (fun y => x_tgt y =? x_tgt x) v) <= nb_interactions d).
+  { intros v Hv Hincl x Hx. specialize (Hv (x_tgt x)).
+    assert (Hin : In (x_tgt x) (level_cells groups)).
+    { apply (lev_incl cgroup cg_cells groups g _ Hg). apply (records_In (cg_cells g) f x). apply Hincl. exact Hx. }
+    specialize (Hlen _ Hin). unfold zlen in *. lia. }
+  assert (HA : forall gv, In gv (map_indexes_and_blocks cg_first cg_last (filter (cpout g) (crecs g)) groups) ->
+            no_assert (m2l_between d l g (fst gv) (snd gv)) /\
+            elementary (m2l_between d l g (fst gv) (snd gv))
+            = flat_map (kk cgroup cg_cells cg_n elem (EM2L l) (fst gv)) (snd gv)).
+  { intros gv Hgv.
+    destruct (batch_facts cgroup cg_cells cg_first cg_last cg_n f groups c_ok c_sorted g gv Hg Hgv) as (H1 & H2 & H3).
+    apply (m2l_between_ok d l g (fst gv) (snd gv)).
+    - rewrite Forall_forall. intros x Hx. apply Hrec. apply H2. exact Hx.
+    - apply Hcnt; assumption. }
+  assert (HB : no_assert (m2l_in_group d l g (filter (cpin g) (crecs g))) /\
+               elementary (m2l_in_group d l g (filter (cpin g) (crecs g)))
+               = flat_map (fun x => [ev elem (EM2L l) x]) (filter (cpin g) (crecs g))).
+  { apply (m2l_in_group_ok d l g).
+    - rewrite Forall_forall. intros x Hx. apply Hrec. apply filter_In in Hx. apply Hx.
+    - intros x Hx. apply filter_In in Hx. destruct Hx as [_ Hp]. unfold pin in Hp.
+      apply andb_true_iff in Hp. destruct Hp as [_ Hp].
+      destruct (gfind1 cgroup cg_cells cg_n g (x_src x)) as [k|] eqn:E; [|discriminate]. exists k. exact E.
+    - apply Hcnt.
+      + intros t. eapply Nat.le_trans; [apply filter_filter_len|].
+        apply (records_count (cg_cells g) f t). apply ss_lt_NoDup. exact Hgs.
+      + intros x Hx. apply filter_In in Hx. apply Hx. }
+  split.
+  - apply no_assert_app; [|apply HB]. apply no_assert_fm. intros gv Hgv. apply (HA gv Hgv).
+  - rewrite elementary_app, elementary_fm. unfold group_out, batches. f_equal; [|apply HB].
+    apply fm_ext_in. intros gv Hgv. apply (HA gv Hgv).
+Qed.
+
+Theorem m2l_level_exact_sec :
+  no_assert (m2l_level d per l groups) /\
+  Permutation (elementary (m2l_level d per l groups)) (spec_m2l d per l (level_cells groups)).
+Proof.
+  rewrite m2l_level_groups. split.
+  - apply no_assert_fm. intros g Hg. apply (m2l_group g Hg).
+  - rewrite elementary_fm. rewrite (fm_ext_in _ _ _ (fun g Hg => proj2 (m2l_group g Hg))).
+    exact (level_perm cgroup cg_cells cg_first cg_last cg_n elem f (EM2L l) groups c_ok c_sorted).
+Qed.
+End M2LLevel.
+
+(* one level of the transfer pass: whatever the grouping, every (target cell, existing member of its interaction list)
+   pair is handed to the kernel exactly once, and no internal assertion (CAssert) fires *)
+Theorem m2l_level_exact : forall d per l groups, level_ok groups ->
+  (forall t, In t (level_cells groups) -> zlen (ilist_cell d per l t) <= nb_interactions d) ->
+  no_assert (m2l_level d per l groups) /\
+  Permutation (elementary (m2l_level d per l groups)) (spec_m2l d per l (level_cells groups)).
+Proof. exact m2l_level_exact_sec. Qed.
+
+Theorem pass_M2L_unfold : forall d per s t,
+  pass_M2L d per s t = flat_map (fun l => m2l_level d per l (levels_of t l)) (zrange s (height t - 1)).
+Proof. reflexivity. Qed.
+
+(* ------------------------------------------------------------------ *)
+(* 8. P2P                                                              *)
+(* ------------------------------------------------------------------ *)
+
+Lemma leaf_at_index g k : 0 <= k < zlen (pg_leaves g) -> lf_index (leaf_at g k) = znth (pg_indices g) k 0.
+Proof.
+  intros Hk. unfold leaf_at, pg_indices. rewrite znth_nat by lia. unfold zlen in Hk.
+  set (dflt := {| lf_index := -1; lf_n := 0; lf_off := 0; lf_parts := [] |}).
+  rewrite (nth_indep (map lf_index (pg_leaves g)) 0 (lf_index dflt)) by (rewrite map_length; lia).
+  rewrite map_nth. reflexivity.
+Qed.
+
+Lemma leaf_at_In g k : 0 <= k < zlen (pg_leaves g) -> In (leaf_at g k) (pg_leaves g).
+Proof. intros Hk. unfold leaf_at. apply nth_In. unfold zlen in Hk. lia. Qed.
+
+Lemma parts_of_leaf : forall lvs lf, NoDup (map lf_index lvs) -> In lf lvs -> parts_of lvs (lf_index lf) = lf_parts lf.
+Proof.
+  unfold parts_of. induction lvs as [|a lvs IH]; intros lf Hnd Hin; [destruct Hin|].
+  cbn [map] in Hnd. apply NoDup_cons_iff in Hnd. destruct Hnd as [Hnin Hnd]. cbn [find].
+  destruct (Z.eqb_spec (lf_index a) (lf_index lf)) as [E|E].
+  - destruct Hin as [<-|Hin]; [reflexivity|]. exfalso. apply Hnin. rewrite E. apply in_map. exact Hin.
+  - destruct Hin as [<-|Hin]; [congruence|]. apply IH; assumption.
+Qed.
+
+Definition rec_okp (g : pgroup) (x : xinter) : Prop :=
+  0 <= x_tpos x < zlen (pg_leaves g) /\ pg_find g (x_tgt x) = Some (x_tpos x)
+  /\ lf_index (leaf_at g (x_tpos x)) = x_tgt x.
+
+Definition between_x (mk : Z -> Z -> Z -> list Z -> list Z -> call) (src tgt : pgroup) (x : xinter) : list call :=
+    match pg_find src (x_src x) with
+    | Some ks =>
+        let chk := match pg_find tgt (x_tgt x) with Some k => if k =? x_tpos x then [] else [CAssert 289] | None => [CAssert 289] end in
+        let ls := leaf_at src ks in let lt := leaf_at tgt (x_tpos x) in
+        let chk2 := if (lf_index ls =? x_src x) && (lf_index lt =? x_tgt x) then [] else [CAssert 292] in
+        chk ++ chk2 ++ [mk (lf_index ls) (lf_index lt) (x_code x) (lf_parts ls) (lf_parts lt)]
+    | None => []
+    end.
+
+Lemma p2p_between_unfold mk src tgt view : p2p_between mk src tgt view = flat_map (between_x mk src tgt) view.
+Proof. reflexivity. Qed.
+
+Definition in_x (g : pgroup) (x : xinter) : list call :=
+    match pg_find g (x_src x) with
+    | Some ks =>
+        let chk := match pg_find g (x_tgt x) with Some k => if k =? x_tpos x then [] else [CAssert 246] | None => [CAssert 246] end in
+        let ls := leaf_at g ks in let lt := leaf_at g (x_tpos x) in
+        chk ++ [CP2P (lf_index ls) (lf_index lt) (x_code x) (lf_parts ls) (lf_parts lt)]
+    | None => [CAssert 245]
+    end.
+
+Lemma p2p_in_group_unfold g lst : p2p_in_group g lst = flat_map (in_x g) lst.
+Proof. reflexivity. Qed.
+
+Definition p2p_group_calls (d : nat) (per : bool) (L : Z) (pgs : list pgroup) (g : pgroup) : list call :=
+  let '(internal, external) := nlist_block d per L true true g in
+  flat_map (fun gv => p2p_between CP2P (fst gv) g (snd gv)) (map_indexes_and_blocks pg_first pg_last external pgs)
+  ++ p2p_in_group g internal ++ p2p_inner g.
+
+Definition p2p_groups (d : nat) (per : bool) (L : Z) (pgs : list pgroup) : list call :=
+  flat_map (fun g =>
+    let '(internal, external) := nlist_block d per L true true g in
+    flat_map (fun gv => p2p_between CP2P (fst gv) g (snd gv)) (map_indexes_and_blocks pg_first pg_last external pgs)
+    ++ p2p_in_group g internal ++ p2p_inner g) pgs.
+
+Lemma p2p_groups_groups d per L pgs : p2p_groups d per L pgs = flat_map (p2p_group_calls d per L pgs) pgs.
+Proof. reflexivity. Qed.
+
+Section P2PGroups.
+Variables (d : nat) (per : bool) (L : Z) (pgs : list pgroup).
+Hypothesis Hpok : Forall pgroup_ok pgs.
+Hypothesis Hps : StronglySorted Z.lt (flat_map pg_indices pgs).
+
+Notation f := (nlist_cell d per L true).
+Notation lvs := (flat_map pg_leaves pgs).
+Definition ep2p (t s c : Z) : elem := EP2P s t c (parts_of lvs s) (parts_of lvs t).
+Notation ppin := (pin pgroup pg_indices pg_first pg_last pg_nl).
+Notation ppout := (pout pgroup pg_first pg_last).
+Notation precs := (recs pgroup pg_indices f).
+
+Lemma p_ok : Forall (gok pgroup pg_indices pg_first pg_last pg_nl) pgs.
+Proof. eapply Forall_impl; [|exact Hpok]. exact pgroup_ok_gok. Qed.
+Lemma p_sorted : StronglySorted Z.lt (lev pgroup pg_indices pgs).
+Proof. exact Hps. Qed.
+
+Lemma lvs_NoDup : NoDup (map lf_index lvs).
+Proof. rewrite map_fm. apply ss_lt_NoDup. exact Hps. Qed.
+
+Lemma nlist_block_eq g : nlist_block d per L true true g = (filter (ppin g) (precs g), filter (ppout g) (precs g)).
+Proof. unfold nlist_block. rewrite classify_filter. reflexivity. Qed.
+
+Lemma leaf_parts g k : In g pgs -> 0 <= k < zlen (pg_leaves g) ->
+  lf_parts (leaf_at g k) = parts_of lvs (lf_index (leaf_at g k)).
+Proof.
+  intros Hg Hk. symmetry. apply parts_of_leaf; [exact lvs_NoDup|].
+  apply in_flat_map. exists g. split; [exact Hg|]. apply leaf_at_In. exact Hk.
+Qed.
+
+Lemma find_leaf_src G i ks : In G pgs -> pg_find G i = Some ks ->
+  0 <= ks < zlen (pg_leaves G) /\ lf_index (leaf_at G ks) = i.
+Proof.
+  intros HG E.
+  pose proof (g_ok pgroup pg_indices pg_first pg_last pg_nl pgs p_ok G HG) as Hgo.
+  pose proof (g_sorted pgroup pg_indices pg_first pg_last pg_nl pgs p_ok p_sorted G HG) as Hgs.
+  apply (gfind1_some pgroup pg_indices pg_first pg_last pg_nl G i ks Hgo Hgs) in E.
+  destruct E as (Hk & Hz). rewrite pg_indices_len in Hk. split; [exact Hk|].
+  rewrite leaf_at_index by exact Hk. exact Hz.
+Qed.
+
+Lemma precs_ok g x : In g pgs -> In x (precs g) -> rec_okp g x.
+Proof.
+  intros Hg Hx.
+  pose proof (g_ok pgroup pg_indices pg_first pg_last pg_nl pgs p_ok g Hg) as Hgo.
+  pose proof (g_sorted pgroup pg_indices pg_first pg_last pg_nl pgs p_ok p_sorted g Hg) as Hgs.
+  apply records_In in Hx. destruct Hx as (Hpos & Hz & _).
+  assert (Hpos' := Hpos). rewrite pg_indices_len in Hpos'.
+  split; [exact Hpos'|]. split.
+  - apply (gfind1_some pgroup pg_indices pg_first pg_last pg_nl g (x_tgt x) (x_tpos x) Hgo Hgs).
+    split; [exact Hpos|apply Hz].
+  - rewrite leaf_at_index by exact Hpos'. apply Hz.
+Qed.
+
+Lemma between_x_ok g G x : In g pgs -> In G pgs -> rec_okp g x ->
+  no_assert (between_x CP2P G g x) /\
+  elementary (between_x CP2P G g x) = kk pgroup pg_indices pg_nl elem ep2p G x.
+Proof.
+  intros Hg HG (Hpos & Hfind & Hidx). unfold between_x, kk.
+  change (gfind1 pgroup pg_indices pg_nl G (x_src x)) with (pg_find G (x_src x)).
+  destruct (pg_find G (x_src x)) as [ks|] eqn:E; [|split; [apply no_assert_nil|reflexivity]].
+  destruct (find_leaf_src G (x_src x) ks HG E) as (Hks & Hsrc).
+  cbv zeta. rewrite Hfind, Z.eqb_refl, Hsrc, Hidx, !Z.eqb_refl. cbn [andb app]. split.
+  - intros id [H|[]]. discriminate.
+  - unfold elementary. cbn [flat_map elems_of_call app]. unfold ev, ep2p.
+    rewrite (leaf_parts G ks HG Hks), (leaf_parts g (x_tpos x) Hg Hpos), Hsrc, Hidx. reflexivity.
+Qed.
+
+Lemma in_x_ok g x : In g pgs -> rec_okp g x -> (exists ks, pg_find g (x_src x) = Some ks) ->
+  no_assert (in_x g x) /\ elementary (in_x g x) = [ev elem ep2p x].
+Proof.
+  intros Hg (Hpos & Hfind & Hidx) (ks & E). unfold in_x. rewrite E.
+  destruct (find_leaf_src g (x_src x) ks Hg E) as (Hks & Hsrc).
+  cbv zeta. rewrite Hfind, Z.eqb_refl, Hsrc, Hidx. cbn [app]. split.
+  - intros id [H|[]]. discriminate.
+  - unfold elementary. cbn [flat_map elems_of_call app]. unfold ev, ep2p.
+    rewrite (leaf_parts g ks Hg Hks), (leaf_parts g (x_tpos x) Hg Hpos), Hsrc, Hidx. reflexivity.
+Qed.
+
+Definition inner_elems (g : pgroup) : list elem := map (fun lf => EP2PInner (lf_index lf) (lf_parts lf)) (pg_leaves g).
+
+Lemma p2p_inner_ok g : no_assert (p2p_inner g) /\ elementary (p2p_inner g) = inner_elems g.
+Proof.
+  unfold p2p_inner, inner_elems. split.
+  - intros id H. apply in_map_iff in H. destruct H as (lf & H & _). discriminate.
+  - unfold elementary. rewrite fm_map. cbn [elems_of_call]. apply fm_single.
+Qed.
+
+Lemma p2p_group g : In g pgs ->
+  no_assert (p2p_group_calls d per L pgs g) /\
+  elementary (p2p_group_calls d per L pgs g)
+  = group_out pgroup pg_indices pg_first pg_last pg_nl elem f ep2p pgs g ++ inner_elems g.
+Proof.
+  intros Hg. unfold p2p_group_calls. rewrite nlist_block_eq.
+  assert (HA : forall gv, In gv (map_indexes_and_blocks pg_first pg_last (filter (ppout g) (precs g)) pgs) ->
+            no_assert (p2p_between CP2P (fst gv) g (snd gv)) /\
+            elementary (p2p_between CP2P (fst gv) g (snd gv))
+            = flat_map (kk pgroup pg_indices pg_nl elem ep2p (fst gv)) (snd gv)).
+  { intros gv Hgv.
+    destruct (batch_facts pgroup pg_indices pg_first pg_last pg_nl f pgs p_ok p_sorted g gv Hg Hgv) as (H1 & H2 & _).
+    rewrite p2p_between_unfold.
+    assert (Hx : forall x, In x (snd gv) -> no_assert (between_x CP2P (fst gv) g x) /\
+                   elementary (between_x CP2P (fst gv) g x) = kk pgroup pg_indices pg_nl elem ep2p (fst gv) x).
+    { intros x Hx. apply between_x_ok; [exact Hg|exact H1|]. apply precs_ok; [exact Hg|]. apply H2. exact Hx. }
+    split.
+    - apply no_assert_fm. intros x Hx'. apply (Hx x Hx').
+    - rewrite elementary_fm. apply fm_ext_in. intros x Hx'. apply (Hx x Hx'). }
+  assert (HB : no_assert (p2p_in_group g (filter (ppin g) (precs g))) /\
+               elementary (p2p_in_group g (filter (ppin g) (precs g)))
+               = flat_map (fun x => [ev elem ep2p x]) (filter (ppin g) (precs g))).
+  { rewrite p2p_in_group_unfold.
+    assert (Hx : forall x, In x (filter (ppin g) (precs g)) ->
+                   no_assert (in_x g x) /\ elementary (in_x g x) = [ev elem ep2p x]).
+    { intros x Hx. apply filter_In in Hx. destruct Hx as [Hx Hp]. apply in_x_ok; [exact Hg| |].
+      - apply precs_ok; assumption.
+      - unfold pin in Hp. apply andb_true_iff in Hp. destruct Hp as [_ Hp].
+        change (gfind1 pgroup pg_indices pg_nl g (x_src x)) with (pg_find g (x_src x)) in Hp.
+        destruct (pg_find g (x_src x)) as [ks|]; [|discriminate]. exists ks. reflexivity. }
+    split.
+    - apply no_assert_fm. intros x Hx'. apply (Hx x Hx').
+    - rewrite elementary_fm. apply fm_ext_in. intros x Hx'. apply (Hx x Hx'). }
+  destruct (p2p_inner_ok g) as (HC1 & HC2).
+  split.
+  - apply no_assert_app; [|apply no_assert_app; [apply HB|exact HC1]].
+    apply no_assert_fm. intros gv Hgv. apply (HA gv Hgv).
+  - rewrite !elementary_app, elementary_fm, HC2, app_assoc. f_equal.
+    unfold group_out, batches. f_equal; [|apply HB].
+    apply fm_ext_in. intros gv Hgv. apply (HA gv Hgv).
+Qed.
+
+Theorem p2p_groups_exact_sec :
+  no_assert (p2p_groups d per L pgs) /\
+  Permutation (elementary (p2p_groups d per L pgs)) (spec_p2p d per L lvs ++ spec_p2p_inner lvs).
+Proof.
+  rewrite p2p_groups_groups. split.
+  - apply no_assert_fm. intros g Hg. apply (p2p_group g Hg).
+  - rewrite elementary_fm. rewrite (fm_ext_in _ _ _ (fun g Hg => proj2 (p2p_group g Hg))).
+    eapply Permutation_trans; [apply perm_fm_app|]. apply Permutation_app.
+    + unfold spec_p2p. cbv zeta. rewrite map_fm.
+      exact (level_perm pgroup pg_indices pg_first pg_last pg_nl elem f ep2p pgs p_ok p_sorted).
+    + unfold spec_p2p_inner. rewrite map_fm. apply Permutation_refl.
+Qed.
+End P2PGroups.
+
+(* the near-field pass *)
+Theorem p2p_groups_exact : forall d per L pgs, Forall pgroup_ok pgs -> StronglySorted Z.lt (flat_map pg_indices pgs) ->
+  no_assert (p2p_groups d per L pgs) /\
+  Permutation (elementary (p2p_groups d per L pgs))
+              (spec_p2p d per L (flat_map pg_leaves pgs) ++ spec_p2p_inner (flat_map pg_leaves pgs)).
+Proof. exact p2p_groups_exact_sec. Qed.
+
+Theorem pass_P2P_unfold : forall d per t, pass_P2P d per t = p2p_groups d per (height t - 1) (t_pgroups t).
+Proof. reflexivity. Qed.
+
+Print Assumptions m2l_level_exact.
+Print Assumptions pass_M2L_unfold.
+Print Assumptions p2p_groups_exact.
